@@ -63,6 +63,7 @@ def main(ctx):
         ctx.extra["escape_outcomes"] = m.group(2)
     ctx.samples.append(dict(summary=[l for l in lines]))
     overload_stream(ctx, ctx.scale(150, 2000))
+    binding_doc_stream(ctx, ctx.scale(60, 800))
     # known findings, replayed on the real code
     sys.path.insert(0, HERE)
     for e in ctx.known:
@@ -75,9 +76,64 @@ def main(ctx):
     ctx.extra["rule"] = ("generated Doxygen-shaped XML directories x lookup sequences (present/partial/missing/overloaded members), "
                          "documentation texts over a Unicode alphabet incl. quotes, backslashes, controls, C1, NBSP, astral; "
                          "distinct = distinct (directory, lookup) pairs and texts")
-    return fw.finish(ctx, search=lambda c: overload_stream(c, c.scale(400, 3000), off=5, collect=False),
+    return fw.finish(ctx, search=lambda c: overload_stream(c, c.scale(400, 3000), off=5, collect=False) or binding_doc_stream(c, c.scale(80, 500), off=5, collect=False),
                      assumptions=["ElementTree/expat parsing is outside the model", "g++ is the oracle for literal decoding",
                                        "str.isprintable table regenerated from the running interpreter"])
+
+
+def binding_doc_stream(ctx, n, off=0, collect=True):
+    """End to end through PybindWrapper: every method binding carries the documentation of the C++ member it CALLS — also
+    when the Python name differs from the C++ name (keywords get a trailing `_`, ipython display names become `_repr_x_`)
+    and the class has a sibling whose C++ name is that Python name (`in` next to `in_`)."""
+    import random, shutil, tempfile
+    from gtwrap.pybind_wrapper import PybindWrapper
+    import streams
+    rng = random.Random(ctx.seed * 104729 + 29 + off)
+    pool = ["area", "in", "in_", "pass", "pass_", "is", "from", "global", "lambda", "html", "svg", "png", "latex", "markdown",
+            "print_", "dim", "def", "None", "_repr_html_"]
+    first = None
+    for case in range(n):
+        d = tempfile.mkdtemp(prefix="verif_c17b_")
+        try:
+            names = rng.sample(pool, rng.randint(2, 6))
+            undocumented = set(rng.sample(names, rng.randint(0, 1)))
+            text = "class A { A(); %s };" % " ".join("double %s(int x) const;" % nm for nm in names)
+            open(os.path.join(d, "index.xml"), "w").write(
+                '<doxygenindex><compound refid="classA" kind="class"><name>A</name></compound></doxygenindex>')
+            open(os.path.join(d, "classA.xml"), "w").write(
+                '<doxygen><compounddef id="classA" kind="class"><compoundname>A</compoundname><sectiondef kind="public-func">' + "".join(
+                    '<memberdef kind="function" id="m%d"><type>double</type><name>%s</name><argsstring>(int x)</argsstring>'
+                    '<param><type>int</type><declname>x</declname></param><briefdescription><para>DOCOF[%s]END</para>'
+                    '</briefdescription><detaileddescription></detaileddescription></memberdef>' % (i, nm, nm)
+                    for i, nm in enumerate(names) if nm not in undocumented) + '</sectiondef></compounddef></doxygen>')
+            ctx.evaluations += 1
+            if collect:
+                ctx.count("binding_doc_cases")
+            try:
+                out = PybindWrapper(module_name="m", top_module_namespaces=[''], use_boost_serialization=False, ignore_classes=[],
+                                    module_template=streams.TPL_MIN, xml_source=d).wrap_file(text, module_name="m")
+            except Exception as ex:  # noqa
+                out = "<<%s>>" % type(ex).__name__
+            bad = None
+            for nm in names:
+                lines = [l for l in out.splitlines() if "self->%s(" % nm in l]
+                docs = re.findall(r"DOCOF\[(.*?)\]END", " ".join(lines))
+                want = [] if nm in undocumented else [nm]
+                if len(lines) != 1 or docs != want:
+                    bad = dict(what="the binding that calls A::%s carries %s instead of the documentation of A::%s" % (
+                                   nm, ("the documentation of " + ", ".join("A::" + x for x in docs)) if docs else "no documentation", nm)
+                               if want else "the binding of the undocumented member A::%s carries documentation of %s" % (nm, docs),
+                               input=text, documented=[x for x in names if x not in undocumented], binding=lines[:2] or out[:200])
+                    break
+            if bad:
+                first = first or dict(bad)
+                if collect:
+                    ctx.spec_fail(bad.pop("what"), **bad)
+            elif collect:
+                ctx.traces_validated += 1
+        finally:
+            shutil.rmtree(d, ignore_errors=True)
+    return first
 
 
 def overload_stream(ctx, n, off=0, collect=True):
@@ -109,14 +165,29 @@ def overload_stream(ctx, n, off=0, collect=True):
                 members.append((ps, ndef, "MARK%dQ" % k))
             body = "".join(
                 '<memberdef kind="function" id="m%d"><type>void</type><name>f</name><argsstring>(%s)</argsstring>%s'
-                '<briefdescription><para>%s</para></briefdescription><detaileddescription></detaileddescription></memberdef>'
+                '<briefdescription><para>%s</para></briefdescription><detaileddescription><para><parameterlist kind="param">%s'
+                '</parameterlist></para></detaileddescription></memberdef>'
                 % (i, ", ".join(ps), "".join('<param><type>T</type><declname>%s</declname>%s</param>' % (
-                    nm, "<defval>1</defval>" if j >= len(ps) - ndef else "") for j, nm in enumerate(ps)), mark)
+                    nm, "<defval>1</defval>" if j >= len(ps) - ndef else "") for j, nm in enumerate(ps)), mark,
+                   "".join('<parameteritem><parameternamelist><parametername>%s</parametername></parameternamelist>'
+                           '<parameterdescription><para>PD%dX%s</para></parameterdescription></parameteritem>' % (nm, i, nm) for nm in ps))
                 for i, (ps, ndef, mark) in enumerate(members))
-            open(os.path.join(d, "index.xml"), "w").write(
-                '<doxygenindex><compound refid="classA" kind="class"><name>A</name></compound></doxygenindex>')
+            # sometimes a later compound of the same name (a Doxygen group / page called like the class) documents a free function
+            index = '<doxygenindex><compound refid="classA" kind="class"><name>A</name></compound>'
+            if rng.random() < 0.3:
+                index += '<compound refid="group__A" kind="group"><name>A</name></compound>'
+                open(os.path.join(d, "group__A.xml"), "w").write(
+                    '<doxygen><compounddef id="group__A" kind="group"><compoundname>A</compoundname><sectiondef kind="func">'
+                    '<memberdef kind="function" id="g1"><type>void</type><name>f</name><argsstring>(%s)</argsstring>%s'
+                    '<briefdescription><para>GROUPDOC</para></briefdescription><detaileddescription></detaileddescription></memberdef>'
+                    '</sectiondef></compounddef></doxygen>' % (", ".join(members[0][0]),
+                        "".join('<param><type>T</type><declname>%s</declname></param>' % nm for nm in members[0][0])))
+            index += '</doxygenindex>'
+            open(os.path.join(d, "index.xml"), "w").write(index)
             open(os.path.join(d, "classA.xml"), "w").write(
-                '<doxygen><compounddef id="classA" kind="class"><compoundname>A</compoundname><sectiondef kind="public-func">'
+                '<doxygen><compounddef id="classA" kind="class"><compoundname>A</compoundname><sectiondef kind="%s">'
+                # members of a Doxygen member group (`@name … @{ @}`) sit in a `user-defined` section
+                % rng.choice(["public-func", "public-func", "user-defined", "public-static-func", "func"])
                 + body + '</sectiondef></compounddef></doxygen>')
             lookups = [ps for ps, _, _ in members] + [ps[:len(ps) - nd] for ps, nd, _ in members]
             lookups += [ps[:len(ps) - rng.randint(0, nd)] for ps, nd, _ in members if nd >= 2]
@@ -130,10 +201,17 @@ def overload_stream(ctx, n, off=0, collect=True):
                 got = [m for m in members if m[2] in doc]
                 ok = [m for m in members if m[0] == args or m[0][:len(m[0]) - m[1]] == args]
                 bad = None
-                if any(m not in ok for m in got):
+                if "GROUPDOC" in doc:
+                    bad = "a binding received the documentation of a same-named compound that is not the class"
+                elif any(m not in ok for m in got):
                     bad = "a binding received the documentation of an overload with other parameter names"
                 elif ok and not got:
                     bad = "a documented member with exactly these parameter names yields no documentation"
+                elif len(got) == 1:
+                    k = members.index(got[0])
+                    missing = [nm for nm in args if ("%s: PD%dX%s" % (nm, k, nm)) not in doc]
+                    if missing:
+                        bad = "the documentation of parameter(s) %s of the bound overload is missing from its docstring" % missing
                 if collect:
                     ctx.count("overload_lookups")
                     ctx.count("overload_" + ("documented" if got else "empty"))
